@@ -145,6 +145,28 @@ class Ev:
         if isinstance(st, ast.Try):
             self._try(st)
             return
+        if isinstance(st, ast.With):
+            for it in st.items:
+                v = self.ev(it.context_expr)
+                if it.optional_vars is not None:
+                    self.assign(it.optional_vars, v)
+            self.block(st.body)
+            return
+        if isinstance(st, ast.Delete):
+            for t in st.targets:
+                if isinstance(t, ast.Subscript):
+                    del self.ev(t.value)[self.ev(t.slice)]
+                elif isinstance(t, ast.Name):
+                    self.env.pop(t.id, None)
+                else:
+                    raise Undecided("del " + U(t))
+            return
+        if isinstance(st, (ast.Import, ast.ImportFrom, ast.Global, ast.Nonlocal)):
+            return
+        if isinstance(st, ast.AnnAssign):
+            if st.value is not None:
+                self.assign(st.target, self.ev(st.value))
+            return
         if isinstance(st, ast.Continue):
             raise _Cont()
         if isinstance(st, ast.Break):
@@ -311,6 +333,19 @@ class Ev:
             out = []
             self._comp(e, 0, out)
             return out
+        if isinstance(e, ast.SetComp):
+            out = []
+            self._comp(e, 0, out)
+            return set(out)
+        if isinstance(e, ast.DictComp):
+            out = []
+            pair = ast.Tuple(elts=[e.key, e.value], ctx=ast.Load())
+            self._comp(ast.ListComp(elt=pair, generators=e.generators), 0, out)
+            return dict(out)
+        if isinstance(e, ast.NamedExpr):
+            v = self.ev(e.value)
+            self.assign(e.target, v)
+            return v
         if isinstance(e, ast.Call):
             # arguments are evaluated exactly once (they may have side effects such as list.pop)
             args = []
@@ -324,8 +359,10 @@ class Ev:
                 h = self.hook(self, e, args, kwargs)
                 if h is not NotImplemented:
                     return h
-            if isinstance(e.func, ast.Name) and PURE_BUILTINS.get(e.func.id) is not None and not kwargs:
-                return PURE_BUILTINS[e.func.id](*args)
+            if isinstance(e.func, ast.Name) and PURE_BUILTINS.get(e.func.id) is not None:
+                return PURE_BUILTINS[e.func.id](*args, **kwargs)
+            if isinstance(e.func, ast.Name) and e.func.id == "print":
+                return None
             if isinstance(e.func, ast.Name) and e.func.id == "isinstance" and len(args) == 2 and (
                     isinstance(args[1], type) or (isinstance(args[1], tuple) and all(isinstance(t, type) for t in args[1]))):
                 return isinstance(args[0], args[1])
